@@ -1064,7 +1064,7 @@ def _gen_retrieve_handler(rng, fam, dimse, focus):
             s = {"t": "int", "v": 0xFF00} if rng.random() < 0.85 else {"t": "ds", "v": 0xFF00, "x": {"ErrorComment": "pending note"}}
             steps.append({"s": s, "d": _pick_inst(rng, i)})
         else:
-            s = _pick_status(rng, fam, dimse, [3, 4, 3, 2, 0, 1, 1, 2, 2, 1, 1])
+            s = _pick_status(rng, fam, dimse, [3, 4, 3, 4, 0, 1, 1, 2, 2, 1, 1])
             if rng.random() < 0.5:
                 d = {"t": "faillist", "uids": [inst_uid(j) for j in range(rng.choice([0, 1, 2]))]}
             else:
@@ -1172,6 +1172,11 @@ PINNED_RETRIEVE = [
     _P("get-study", {"kind": "gen", "steps": [{"count": 2}, _pinst(0), _pinst(1)], "end": "stop"}, 0, "explicit", (1, 3, 5), ["st:A700", "st:C000"]),
     _P("move-patient", {"kind": "gen", "steps": [{"dest": "scp"}, {"count": 3}, _pinst(0), _pinst(1), _pinst(2)], "end": "stop"}, 1, "implicit", (7, 9, 11), ["ok", "st:B000", "raise"]),
     _P("get-cir", {"kind": "gen", "steps": [{"count": 2}, _pinst(0), _pinst(1), _pinst(2)], "end": "stop"}, 2),
+    # handler-supplied Cancel / Failure finals (with the handler's own FailedSOPInstanceUIDList)
+    _P("get-pso", {"kind": "gen", "steps": [{"count": 3}, _pinst(0), {"s": {"t": "int", "v": 0xFE00}, "d": {"t": "none"}}, _pinst(2)], "end": "stop"}, 3),
+    _P("move-cir", {"kind": "gen", "steps": [{"dest": "scp"}, {"count": 3}, _pinst(0), {"s": {"t": "int", "v": 0xFE00}, "d": {"t": "none"}}], "end": "stop"}, 4),
+    _P("move-hp", {"kind": "gen", "steps": [{"dest": "scp"}, {"count": 2}, _pinst(0), {"s": {"t": "int", "v": 0xA702}, "d": {"t": "faillist", "uids": [INST_ROOT + "2"]}}], "end": "stop"}, 5, "implicit", (1, 3, 5), ["st:A700"]),
+    _P("get-hp", {"kind": "gen", "steps": [{"count": 2}, _pinst(0), {"s": {"t": "int", "v": 0xB000}, "d": {"t": "none"}}], "end": "stop"}, 6, "explicit", (1, 3, 5), ["st:C000"]),
 ]
 
 
